@@ -103,7 +103,7 @@ theorem trend_sumTT (v : List Rat) : (trendOf v).sumTT = (crossOf (timed 0 v)).s
 
 theorem trend_nSumTT (v : List Rat) :
     (trendOf v).nSumTT = (v.length : Rat) * (crossOf (timed 0 v)).sbb := by
-  show ((v.length * (v.length * v.length + v.length) * (2 * v.length + 1) : Nat) : Rat) / 6 = (v.length : Rat) * sBB (timed 0 v)
+  show (v.length : Rat) * (((v.length * v.length + v.length) * (2 * v.length + 1) : Nat) : Rat) / 6 = (v.length : Rat) * sBB (timed 0 v)
   rw [sum_tt]; push_cast; ring
 
 theorem trend_divisor (v : List Rat) : (trendOf v).divisor = (crossOf (timed 0 v)).den := by
